@@ -187,14 +187,17 @@ def expire (pres : Option (Nat × Map κ ν)) (W : SWorld κ ν) : SWorld κ ν 
   | none => W
 
 /-- What the specification says a history observes: per request the operation results and the
-    response's session cookie. -/
+    response's session cookie. Which session a request starts with (the cookie the client sends,
+    read by the processor in force for that request, or `from_parts`) and what the client holds
+    afterwards are shared with the model (`presented`, `sent`, `afterResponse`). -/
 def runHistory (cfg : Config) (strict : Bool) : List (Req κ ν) → Client κ ν → SWorld κ ν → List (List (Res ν) × Fin κ ν)
   | [], _, _ => []
   | rq :: rest, c, W =>
-    let pres := presented c rq.src
+    let cfg' := reqCfg cfg rq.crypto
+    let pres := presented cfg' c rq.src
     let W := if rq.expire then expire pres W else W
-    let (rs, f, W) := runRequest cfg strict pres rq.ops W
-    let c' : Client κ ν := { jar := afterResponse pres f, issued := c.issued ++ [issuedBy f] }
+    let (rs, f, W) := runRequest cfg' strict pres rq.ops W
+    let c' : Client κ ν := { jar := afterResponse cfg' (sent c rq.src) f, issued := c.issued ++ [issuedBy cfg' f] }
     (rs, f) :: runHistory cfg strict rest c' W
 
 def SWorld.init : SWorld κ ν := { recs := fun _ => none, nextId := 0 }
